@@ -4,7 +4,7 @@ import os
 import re
 
 from mirlib import AnchorMissing, op_place, path_matches, is_bare, place_projs, strip_closure
-from helpers import (arm, branches_on_call, enum_switches, edge_region, must_pass, origin_calls, aggregates, calls_matching,
+from helpers import (vexpr, arm, branches_on_call, enum_switches, edge_region, must_pass, origin_calls, aggregates, calls_matching,
                      field_accesses, ungated_reach, chain)
 import entrypoints
 import gating
@@ -339,6 +339,36 @@ def r_whitespace_agreement(r, prog):
         r.finding('directive-lexer-without-skip', nx.span, 'lex_next_preprocessor_token can be given a character that was not preceded by skip_inline_whitespace')
     r.floor(2)
 
+
+def r_failed_parse_scopes(r, prog):
+    """Members are published in the AST before their container is complete; when the file fails to parse the container is dropped and the
+    members dangle. Nothing may find its way to them: the only consumer of the AST after a failed parse is into_updated (through the scopes
+    recorded by lints), so the lints of a file that failed to parse must lose their scopes before they are merged."""
+    pf = prog.fn('slicec::parsers::parse_files')
+    cs = [c for c in pf.calls() if c.name() == 'clear_scopes' and not pf.blocks[c.bb].get('cleanup')]
+    ex = [c for c in pf.calls() if c.name() == 'extend' and 'diagnostics' in vexpr(pf, c.args[0]) and not pf.blocks[c.bb].get('cleanup')]
+    call = [c for c in pf.calls() if c.name() == 'parse_file' and not pf.blocks[c.bb].get('cleanup')]
+    he = [b for b in branches_on_call(pf, lambda c: c.name() == 'has_errors')]
+    if cs and ex and call and he and all(pf.dominates(call[0].bb, b['bb']) for b in he) and any(pf.edge_dominates(b['bb'], b['true'], cs[0].bb) for b in he) \
+            and must_pass(pf, he[0]['true'], [ex[0].bb], [cs[0].bb]) and vexpr(pf, cs[0].args[0]) == vexpr(pf, he[0]['call'].args[0]):
+        r.ok('the diagnostics of a file that reported an error lose their scopes before they are merged into the compilation diagnostics')
+    else:
+        r.finding('scopes-survive-a-failed-parse', pf.span, 'parse_files merges the lints of a file that failed to parse with their scopes: into_updated would look the named elements up, and members of containers that were never completed have a dangling parent (read of freed memory)')
+    d = prog.fn('slicec::diagnostics::diagnostic::Diagnostics::clear_scopes')
+    ws = [(vexpr(d, rv['a']) if rv['k'] == 'use' else (rv.get('v') or rv['k'])) for bb, j, lhs, rv, s in d.assigns() if [x for x in lhs.get('p', []) if isinstance(x, dict) and x.get('n') == 'scope'] and not d.blocks[bb].get('cleanup')]
+    if ws and all(w in ('None', 'Option::None{}') for w in ws) and d.natural_loops():
+        r.ok('clear_scopes sets the scope of every diagnostic to None')
+    else:
+        r.finding('clear-scopes-incomplete', d.span, 'clear_scopes writes %s' % ws)
+    # into_updated looks elements up only through a recorded scope
+    iu = prog.fn('slicec::diagnostics::diagnostic::Diagnostics::into_updated')
+    fe = [c for c in iu.calls() if c.name() in ('find_element', 'find_node', 'find_node_with_scope', 'find_element_with_scope') and not iu.blocks[c.bb].get('cleanup')]
+    if fe and all('scope(' in vexpr(iu, c.args[1], depth=8) for c in fe):
+        r.ok('into_updated reaches the AST only through the scope recorded by a diagnostic (%d lookup)' % len(fe))
+    else:
+        r.finding('ast-lookup-without-scope', iu.span, 'into_updated looks elements up with %s' % [vexpr(iu, c.args[1], depth=8)[:60] for c in fe])
+    r.floor(3)
+
 def run(ctx):
     prog = ctx.prog
     ctx.run_rule('C01.1', 'T7', 'panic-site ledger over everything reachable in slicec lib+bin', r_panic_ledger, prog)
@@ -351,6 +381,7 @@ def run(ctx):
     ctx.run_rule('C01.1b', 'T6', 'white space skipper and classifier of the directive lexer agree (argument of the "should have been skipped" panic)', r_whitespace_agreement, prog)
     ctx.run_rule('C01.2f', 'T10', 'fresh search state per root; candidates scan on every path (argument of SCCs all_base_interfaces, cycle_detector)', c05.r_search_state_and_identity, prog)
     ctx.run_rule('C01.2g', 'T8', 'the reference directory walk enters every directory once (argument of SCC directory_walk)', _c17.r_directory_walk_once, prog)
+    ctx.run_rule('C01.5b', 'T4', 'lints of a file that failed to parse cannot lead to dangling members (argument of the WeakPtr::borrow ledger entry)', r_failed_parse_scopes, prog)
     ctx.run_rule('C01.3d', 'T9', 'alias chain loop: membership exit and growing chain (loop ledger variant)', c05.r_alias_loop, prog)
     ctx.run_rule('C01.3a', 'T9', 'every loop consumes on every path round it, or is in the loop ledger with its progress calls', r_loops, prog)
     ctx.run_rule('C01.3b', 'T9', 'lexers: no token at end of buffer without a state change', r_lexer_eof_state, prog)
